@@ -59,6 +59,12 @@ fn clean_command(path: &str) -> Result<()> {
 
     for path in paths {
         let path = path?;
+
+        // a directory that happens to be called `x.mmm` is not a bytecode file
+        if path.file_type()?.is_dir() {
+            continue;
+        }
+
         if Path::new(&path.file_name())
             .extension()
             .is_some_and(|ext| ext == "mmm")
